@@ -1,8 +1,13 @@
 (* C09 - flattening yields a connected polyline from start to end with contiguous parameter
    ranges ending at exactly 1: the control structure of every flattening interface, for ANY
    numeric oracle (step count, parameter function, number of sub-quadratics) and any arithmetic.
-   (The distance bound "within the tolerance" is validated per run, see DESIGN.md.) *)
-From LV Require Import Base.Prelude Model.Flatten Proofs.C09_Flatten.
+   The distance bound "within the tolerance" is decided per run by the verified curve-deviation
+   checker (Checker/CurveDev.v): the soundness theorems below say that an empty report decides
+   ALL points of the curve, and that a reported witness is a genuine violation. *)
+From Coq Require Import QArith.
+From LV Require Import Base.Prelude Model.Flatten Model.Bezier Checker.Region Checker.CurveDev
+                       Proofs.C09_Flatten Proofs.C09_CurveDev.
+Close Scope Q_scope.
 
 (* a chain of pieces from [a] (parameter [ta]) to [b] (parameter [tb]) *)
 Fixpoint chain {P T} (a : P) (ta : T) (l : list (piece P T)) (b : P) (tb : T) : Prop :=
@@ -52,6 +57,67 @@ Theorem C09_cubic_iter_end : forall (P T : Type) (t1 : T) (cto : P) csample nq q
   cubic_iter_points P T t1 cto csample nq q_count q_t_at is_one iter_map <> [].
 Proof. exact cubic_iter_end. Qed.
 
+(* ---------------------------------------------------------------- the distance bound
+   [near_poly tol2 segs p]: some segment of the polyline is within the tolerance of p (squared
+   distances, exact rationals).  An empty report of the checker on a flattening (parameters [ts]
+   ending with 1, vertices [pts]) decides EVERY point of the curve, t ranging over all rationals of
+   [0, 1] - not a sample. *)
+Theorem C09_quad_deviation_sound : forall fuel tol2 c ts pts,
+  quad_flat_check fuel tol2 c ts pts = Some [] ->
+  forall t, (0 <= t)%Q -> (t <= 1)%Q -> near_poly tol2 (segs_of pts) (q_sample c t).
+Proof. exact quad_flat_sound. Qed.
+
+Theorem C09_cubic_deviation_sound : forall fuel tol2 c ts pts,
+  cubic_flat_check fuel tol2 c ts pts = Some [] ->
+  forall t, (0 <= t)%Q -> (t <= 1)%Q -> near_poly tol2 (segs_of pts) (c_sample c t).
+Proof. exact cubic_flat_sound. Qed.
+
+(* a reported witness is a point of the curve farther than the tolerance from every segment *)
+Theorem C09_quad_deviation_witness : forall fuel tol2 c ts pts l i t,
+  quad_flat_check fuel tol2 c ts pts = Some l -> In (i, VFar t) l ->
+  (0 <= t)%Q /\ (t <= 1)%Q /\ far tol2 (segs_of pts) (q_sample c t).
+Proof. exact quad_flat_witness. Qed.
+
+Theorem C09_cubic_deviation_witness : forall fuel tol2 c ts pts l i t,
+  cubic_flat_check fuel tol2 c ts pts = Some l -> In (i, VFar t) l ->
+  (0 <= t)%Q /\ (t <= 1)%Q /\ far tol2 (segs_of pts) (c_sample c t).
+Proof. exact cubic_flat_witness. Qed.
+
+(* the range checks themselves, for any sub-range of any curve *)
+Theorem C09_qcheck_ok : forall fuel tol2 c t0 t1 segs, (t0 <= t1)%Q ->
+  qcheck fuel tol2 c t0 t1 segs = VOk ->
+  forall t, (t0 <= t)%Q -> (t <= t1)%Q -> near_poly tol2 segs (q_sample c t).
+Proof. exact qcheck_ok. Qed.
+
+Theorem C09_ccheck_ok : forall fuel tol2 c t0 t1 segs, (t0 <= t1)%Q ->
+  ccheck fuel tol2 c t0 t1 segs = VOk ->
+  forall t, (t0 <= t)%Q -> (t <= t1)%Q -> near_poly tol2 segs (c_sample c t).
+Proof. exact ccheck_ok. Qed.
+
+(* every vertex is within the tolerance of the curve point of its own parameter *)
+Theorem C09_quad_vertices_sound : forall tol2 c ts pts i0,
+  quad_vertices_far tol2 c ts pts i0 = [] ->
+  forall k t p, nth_error ts k = Some t -> nth_error pts k = Some p ->
+  (norm2 (psub p (q_sample c t)) <= tol2)%Q.
+Proof. exact quad_vertices_sound. Qed.
+
+Theorem C09_cubic_vertices_sound : forall tol2 c ts pts i0,
+  cubic_vertices_far tol2 c ts pts i0 = [] ->
+  forall k t p, nth_error ts k = Some t -> nth_error pts k = Some p ->
+  (norm2 (psub p (c_sample c t)) <= tol2)%Q.
+Proof. exact cubic_vertices_sound. Qed.
+
+(* non-vacuity: the parabola (0,0) (1,2) (2,0) flattened at t = 1/2; its largest deviation from the
+   two chords is sqrt(1/32): accepted at exactly that tolerance, refuted (with the witnesses
+   t = 1/4 and t = 3/4) just below it *)
+Example C09_example_deviation :
+  let c := mkQuad (0, 0)%Q (1, 2)%Q (2, 0)%Q in
+  let ts := [1 # 2; 1]%Q in
+  let pts := [(0, 0); (1, 1); (2, 0)]%Q in
+  quad_flat_check 20 (1 # 32)%Q c ts pts = Some [] /\
+  quad_flat_check 20 (3 # 100)%Q c ts pts = Some [(0%Z, VFar (1 # 4)%Q); (1%Z, VFar (3 # 4)%Q)].
+Proof. vm_compute. split; reflexivity. Qed.
+
 Example C09_example :
   map (fun p => (pc_t0 nat nat p, pc_t1 nat nat p))
       (quad_callback nat nat 0 100 0 100 (fun t => t) 4 (fun i => 25 * i)) = [(0, 25); (25, 50); (50, 75); (75, 100)].
@@ -62,3 +128,11 @@ Print Assumptions C09_quad_inner_points.
 Print Assumptions C09_quad_iterators.
 Print Assumptions C09_cubic_chain.
 Print Assumptions C09_cubic_iter_end.
+Print Assumptions C09_quad_deviation_sound.
+Print Assumptions C09_cubic_deviation_sound.
+Print Assumptions C09_quad_deviation_witness.
+Print Assumptions C09_cubic_deviation_witness.
+Print Assumptions C09_qcheck_ok.
+Print Assumptions C09_ccheck_ok.
+Print Assumptions C09_quad_vertices_sound.
+Print Assumptions C09_cubic_vertices_sound.
